@@ -6,27 +6,28 @@ From BT Require Import Core.PyVal Core.Expr Core.Hint Core.Check Core.ClassFacts
 Import ListNotations.
 Local Open Scope list_scope.
 
-Definition sat_any (x : pyval) :=
-  fix any (l : list hint) : bool := match l with [] => false | h' :: l' => sat h' x || any l' end.
+Definition sat_any (pb : nat -> pyval -> bool) (x : pyval) :=
+  fix any (l : list hint) : bool := match l with [] => false | h' :: l' => sat pb h' x || any l' end.
 
-Definition sat_all2 :=
+Definition sat_all2 (pb : nat -> pyval -> bool) :=
   fix all2 (hl : list hint) (ys : list pyval) : bool :=
     match hl, ys with
     | [], [] => true
-    | h' :: hl', y :: ys' => sat h' y && all2 hl' ys'
+    | h' :: hl', y :: ys' => sat pb h' y && all2 hl' ys'
     | _, _ => false
     end.
 
-Lemma sat_union_unfold hs x : sat (HUnion hs) x = sat_any x hs.
+Lemma sat_union_unfold pb hs x : sat pb (HUnion hs) x = sat_any pb x hs.
 Proof. reflexivity. Qed.
 
-Lemma sat_tuple_unfold hs x :
-  sat (HTuple hs) x = isinst x [c_tuple] && match items_of x with Some l => sat_all2 hs l | None => false end.
+Lemma sat_tuple_unfold pb hs x :
+  sat pb (HTuple hs) x = isinst x [c_tuple] && match items_of x with Some l => sat_all2 pb hs l | None => false end.
 Proof. reflexivity. Qed.
 
 Section Sound.
   Variable cf : gconf.
   Variable r : Z.
+  Variable pb : nat -> pyval -> bool.
 
   Lemma first_in y : items y <> [] -> In (first y) (items y).
   Proof. unfold first. destruct (items y); [congruence|]. intros _. now left. Qed.
@@ -50,11 +51,11 @@ Section Sound.
   Proof. destruct v; cbn [lit_scalar]; intros H; try discriminate; vm_compute; reflexivity. Qed.
 
   Definition sound (h : hint) : Prop :=
-    hint_ok h = true -> forall y, wf y = true -> sat h y = true -> chk cf r h y = true.
+    hint_ok h = true -> forall y, wf y = true -> sat pb h y = true -> chk cf r pb h y = true.
 
   Lemma sound_items ch y sel :
-    sound ch -> hint_ok ch = true -> wf y = true -> forallb (sat ch) (items y) = true ->
-    In sel (items y) -> chk cf r ch sel = true.
+    sound ch -> hint_ok ch = true -> wf y = true -> forallb (sat pb ch) (items y) = true ->
+    In sel (items y) -> chk cf r pb ch sel = true.
   Proof.
     intros IH Hok Hw Hall Hin. rewrite forallb_forall in Hall.
     apply IH; [exact Hok|now apply (wf_items y)|now apply Hall].
@@ -138,8 +139,8 @@ Section Sound.
 
   Lemma sat_all2_tuple y hs : wf y = true -> Forall sound hs ->
     (fix all (l : list hint) : bool := match l with [] => true | x :: l' => hint_ok x && all l' end) hs = true ->
-    forall pre l, items y = pre ++ l -> sat_all2 hs l = true ->
-      List.length l = List.length hs /\ tuple_chk cf r y hs (List.length pre) = true.
+    forall pre l, items y = pre ++ l -> sat_all2 pb hs l = true ->
+      List.length l = List.length hs /\ tuple_chk cf r pb y hs (List.length pre) = true.
   Proof.
     intros Hw IH. induction IH as [|h hs Hh Hl IHl]; intros Hall pre l Hit Hs.
     - destruct l; [split; reflexivity|discriminate].
@@ -195,12 +196,15 @@ Section Sound.
     - now apply sound_tuple.
     - apply sound_literal.
     - apply sound_type.
+    - intros Hok y Hw Hs. cbn [hint_ok] in Hok. apply andb_true_iff in Hok as [_ Hm].
+      cbn [sat] in Hs. apply andb_true_iff in Hs as [Hs1 Hs2]. cbn [chk]. rewrite Hs2, andb_true_r.
+      destruct (ignorable h); [reflexivity|]. now apply IHh.
   Qed.
 
-  Lemma ignorable_sat h : ignorable h = true -> forall y, sat h y = true -> True.
+  Lemma ignorable_sat h : ignorable h = true -> forall y, sat pb h y = true -> True.
   Proof. trivial. Qed.
 
   Theorem check_sound h y :
-    hint_ok h = true -> wf y = true -> sat h y = true -> check cf r h y = true.
+    hint_ok h = true -> wf y = true -> sat pb h y = true -> check cf r pb h y = true.
   Proof. intros Hok Hw Hs. unfold check. destruct (ignorable h); [reflexivity|now apply chk_sound]. Qed.
 End Sound.
